@@ -175,6 +175,11 @@ func (c *cdbdriver) GetLocationByMap(ipnet *net.IPNet, mapID []byte, context Con
 		if mask > maxMask {
 			continue
 		}
+		if isv4 && mask < 8*(net.IPv6len-net.IPv4len) {
+			// an IPv4 client is never inside an IPv6 subnet; the remaining (shorter)
+			// prefix lengths of a combined set can only belong to IPv6 subnets
+			break
+		}
 		// Finish creating the search key:
 		// "{key_prefix}{ipv6_subnet_bitmap}"
 		currentCIDRMask := cachedCIDRMask[mask]
